@@ -45,7 +45,8 @@ type Case struct {
 	Fam      string     `json:"family"`
 	Desc     string     `json:"desc"`
 	N        int        `json:"n"`
-	Ver      int16      `json:"metadata_version"`
+	Key      int16      `json:"request_key"` // kmsg key of the n requests (3 = Metadata in every family but the keyed ones)
+	Ver      int16      `json:"request_version"`
 	MaxRead  int32      `json:"broker_max_read_bytes"`
 	Mode     string     `json:"issue_mode"`
 	IssueUs  []int64    `json:"issue_us"`
@@ -77,16 +78,148 @@ func honestMarker(conn, slot int) int32 { return int32(5000 + 100*conn + slot) }
 // carrying correlation id corr and an identity (ControllerID = marker,
 // ClusterID = "m<marker>").
 func metadataFrame(ver int16, corr int32, marker int32, throttle int32) []byte {
-	resp := kmsg.NewPtrMetadataResponse()
-	resp.Version = ver
-	resp.ThrottleMillis = throttle
-	cid := fmt.Sprintf("m%d", marker)
-	resp.ClusterID = &cid
-	resp.ControllerID = marker
-	b := kmsg.NewMetadataResponseBroker()
-	b.NodeID, b.Host, b.Port = 1, "localhost", 9092
-	resp.Brokers = append(resp.Brokers, b)
-	return sbroker.ResponseFrame(resp, corr)
+	return respFrame(3, ver, corr, marker, throttle)
+}
+
+// A flavour is a request kind: key and the version the broker advertises as
+// its maximum for it (all chosen at or below kmsg's and the latest stable
+// maximum, so that is the version the client writes).
+type flavour struct{ Key, Ver int16 }
+
+func (f flavour) String() string { return fmt.Sprintf("%s v%d", kmsg.NameForKey(f.Key), f.Ver) }
+
+// keyedFlavours: ApiVersions issued on an established connection (its
+// response never has a flexible header, v3+ bodies are flexible, and a body
+// whose second byte is 35 is re-read as v0), Produce and Fetch (dedicated
+// connections), the SASL keys issued as plain requests, JoinGroup (group
+// connection); a non-flexible and a flexible version of each where both exist.
+var keyedFlavours = []flavour{
+	{18, 0}, {18, 3},
+	{0, 8}, {0, 11},
+	{1, 11}, {1, 13},
+	{17, 1},
+	{36, 1}, {36, 2},
+	{11, 5}, {11, 7},
+}
+
+// respFor builds a well-formed response of the given kind carrying an
+// identity: Metadata ControllerID/ClusterID, ApiVersions one ApiKeys entry
+// {18,0,marker}, Produce a topic "m<marker>", Fetch SessionID, SASLHandshake
+// one mechanism "m<marker>", SASLAuthenticate auth bytes "m<marker>",
+// JoinGroup MemberID "m<marker>".
+func respFor(key, ver int16, marker, throttle int32) kmsg.Response {
+	name := fmt.Sprintf("m%d", marker)
+	switch key {
+	case 3:
+		resp := kmsg.NewPtrMetadataResponse()
+		resp.Version = ver
+		resp.ThrottleMillis = throttle
+		resp.ClusterID = &name
+		resp.ControllerID = marker
+		b := kmsg.NewMetadataResponseBroker()
+		b.NodeID, b.Host, b.Port = 1, "localhost", 9092
+		resp.Brokers = append(resp.Brokers, b)
+		return resp
+	case 18:
+		resp := kmsg.NewPtrApiVersionsResponse()
+		resp.Version = ver
+		ak := kmsg.NewApiVersionsResponseApiKey()
+		ak.ApiKey, ak.MinVersion, ak.MaxVersion = 18, 0, int16(marker)
+		resp.ApiKeys = append(resp.ApiKeys, ak)
+		return resp
+	case 0:
+		resp := kmsg.NewPtrProduceResponse()
+		resp.Version = ver
+		t := kmsg.NewProduceResponseTopic()
+		t.Topic = name
+		resp.Topics = append(resp.Topics, t)
+		return resp
+	case 1:
+		resp := kmsg.NewPtrFetchResponse()
+		resp.Version = ver
+		resp.SessionID = marker
+		return resp
+	case 17:
+		resp := kmsg.NewPtrSASLHandshakeResponse()
+		resp.Version = ver
+		resp.SupportedMechanisms = []string{name}
+		return resp
+	case 36:
+		resp := kmsg.NewPtrSASLAuthenticateResponse()
+		resp.Version = ver
+		resp.SASLAuthBytes = []byte(name)
+		return resp
+	case 11:
+		resp := kmsg.NewPtrJoinGroupResponse()
+		resp.Version = ver
+		resp.MemberID = name
+		return resp
+	}
+	panic(fmt.Sprintf("c22: no response builder for key %d", key))
+}
+
+// markerFrom reads the identity back from a decoded response.
+func markerFrom(resp kmsg.Response) (int32, bool) {
+	name := ""
+	switch r := resp.(type) {
+	case *kmsg.MetadataResponse:
+		return r.ControllerID, true
+	case *kmsg.ApiVersionsResponse:
+		if len(r.ApiKeys) == 1 {
+			return int32(r.ApiKeys[0].MaxVersion), true
+		}
+		return -1, true
+	case *kmsg.FetchResponse:
+		return r.SessionID, true
+	case *kmsg.ProduceResponse:
+		if len(r.Topics) == 1 {
+			name = r.Topics[0].Topic
+		}
+	case *kmsg.SASLHandshakeResponse:
+		if len(r.SupportedMechanisms) == 1 {
+			name = r.SupportedMechanisms[0]
+		}
+	case *kmsg.SASLAuthenticateResponse:
+		name = string(r.SASLAuthBytes)
+	case *kmsg.JoinGroupResponse:
+		name = r.MemberID
+	default:
+		return 0, false
+	}
+	m := int32(-1)
+	fmt.Sscanf(name, "m%d", &m)
+	return m, true
+}
+
+// reqFor builds request i of a case; timeouts carried in the request are
+// zeroed so that the read timeout is RequestTimeoutOverhead for every kind.
+func reqFor(key int16, i int) kmsg.Request {
+	switch key {
+	case 3:
+		req := kmsg.NewPtrMetadataRequest()
+		name := fmt.Sprintf("r%d", i)
+		rt := kmsg.NewMetadataRequestTopic()
+		rt.Topic = &name
+		req.Topics = append(req.Topics, rt)
+		return req
+	case 0:
+		req := kmsg.NewPtrProduceRequest()
+		req.TimeoutMillis = 0
+		return req
+	case 1:
+		req := kmsg.NewPtrFetchRequest()
+		req.MaxWaitMillis = 0
+		return req
+	case 11:
+		req := kmsg.NewPtrJoinGroupRequest()
+		req.RebalanceTimeoutMillis = 0
+		return req
+	}
+	return kmsg.RequestForKey(key)
+}
+
+func respFrame(key, ver int16, corr int32, marker int32, throttle int32) []byte {
+	return sbroker.ResponseFrame(respFor(key, ver, marker, throttle), corr)
 }
 
 // corrOfSlot: the ApiVersions handshake uses correlation id 0, the requests
@@ -219,9 +352,10 @@ var bothVers = []int16{verPlain, verFlex}
 // enumerate calls yield for every case of the tier, in a fixed order.
 func enumerate(l limits, yield func(c *Case)) {
 	mk := func(fam, desc string, n int, ver int16, mode string, steps []stepSpec) *Case {
-		return &Case{Fam: fam, Desc: desc, N: n, Ver: ver, MaxRead: defaultMaxRead, Mode: mode, IssueUs: issueTimes(n, mode),
+		return &Case{Fam: fam, Desc: desc, N: n, Key: 3, Ver: ver, MaxRead: defaultMaxRead, Mode: mode, IssueUs: issueTimes(n, mode),
 			Cancel: -1, Steps: steps}
 	}
+	defer enumerateKeyed(l, yield)
 	allModes := []string{"simul", "stagger", "late", "after"}
 
 	// ---- family "corr": every frame well-formed; the correlation id of the
@@ -536,6 +670,206 @@ func enumerate(l limits, yield func(c *Case)) {
 							c := mk("cancel", fmt.Sprintf("%s; request %d cancelled at %dus", st.desc, i, at), n, ver, mode, steps)
 							c.Cancel, c.CancelUs = i, at
 							yield(c)
+						}
+					}
+				}
+			}
+		}
+	}
+}
+
+// enumerateKeyed makes the request KEY a dimension of the hostile-reply
+// families: ApiVersions on an established connection, Produce, Fetch, the SASL
+// keys, JoinGroup (keyedFlavours), each with well-formed frames of its own
+// response type. Requests are issued at distinct instants (stagger/late/after)
+// so that the arrival time identifies which request sits in which slot.
+//   - short: (all flavours, Metadata included) frame k is correctly framed but
+//     its payload is only the first L bytes of the valid payload, for every
+//     L = 0 .. header + 8 (so: shorter than a correlation id, exactly the
+//     correlation id, 1, 2, ... body bytes), and payloads whose body is an
+//     error-35 (UNSUPPORTED_VERSION) stub, which ApiVersions re-reads as v0;
+//   - keyed-corr, keyed-trunc (cut at every byte), keyed-size, keyed-prefix
+//     (<= 1 byte), keyed-tags (flexible response headers): the existing
+//     corruption classes on the other keys' frames.
+func enumerateKeyed(l limits, yield func(c *Case)) {
+	maxN := 2
+	if l.thorough {
+		maxN = 3
+	}
+	modes := []string{"stagger", "late", "after"}
+	mk := func(fam, desc string, n int, f flavour, mode string, steps []stepSpec) *Case {
+		return &Case{Fam: fam, Desc: f.String() + ": " + desc, N: n, Key: f.Key, Ver: f.Ver, MaxRead: defaultMaxRead, Mode: mode, IssueUs: issueTimes(n, mode),
+			Cancel: -1, Steps: steps}
+	}
+	frames := func(n int, f flavour) [][]byte {
+		fs := make([][]byte, n)
+		for pos := range fs {
+			fs[pos] = respFrame(f.Key, f.Ver, corrOfSlot(pos), markerOf(pos), 0)
+		}
+		return fs
+	}
+	flexHeader := func(f flavour) bool {
+		r := kmsg.ResponseForKey(f.Key)
+		r.SetVersion(f.Ver)
+		return r.IsFlexible() && f.Key != 18
+	}
+
+	// ---- short
+	all := append([]flavour{{3, verPlain}, {3, verFlex}}, keyedFlavours...)
+	stubs := [][]byte{
+		{0x00, 0x23},
+		{0x00, 0x23, 0x00},
+		{0x00, 0x23, 0x00, 0x00, 0x00, 0x00},                                     // v0 ApiVersions body: error 35, no keys
+		{0x00, 0x23, 0x00, 0x00, 0x00, 0x01, 0x00, 0x12, 0x00, 0x00, 0x00, 0x03}, // v0 body: error 35, ApiVersions [0,3]
+		{0x23},
+		{0xff, 0x23, 0xff},
+	}
+	for _, f := range all {
+		hdr := 4
+		if flexHeader(f) {
+			hdr = 5
+		}
+		for n := 1; n <= maxN; n++ {
+			fs := frames(n, f)
+			for k := 0; k < n; k++ {
+				payload := fs[k][4:]
+				type variant struct {
+					desc    string
+					payload []byte
+				}
+				var vs []variant
+				for L := 0; L <= min(len(payload), hdr+8); L++ {
+					vs = append(vs, variant{fmt.Sprintf("payload is the first %d bytes of the valid %d (response header %d bytes)", L, len(payload), hdr), payload[:L]})
+				}
+				for _, s := range stubs {
+					vs = append(vs, variant{fmt.Sprintf("payload is the response header followed by body %x", s), append(append([]byte(nil), payload[:hdr]...), s...)})
+				}
+				for _, v := range vs {
+					nf := make([]byte, 4, 4+len(v.payload))
+					binary.BigEndian.PutUint32(nf, uint32(len(v.payload)))
+					nf = append(nf, v.payload...)
+					chunks := append([][]byte(nil), fs...)
+					chunks[k] = nf
+					for _, mode := range modes[:2] {
+						if n == 1 && mode != "stagger" {
+							continue
+						}
+						for _, end := range []string{endIdle, endClose} {
+							yield(mk("short", fmt.Sprintf("frame %d: %s, then %s", k, v.desc, end), n, f, mode, buildSteps(n, mode, chunks, -1, 0, end)))
+						}
+					}
+				}
+			}
+		}
+	}
+
+	for _, f := range keyedFlavours {
+		// ---- keyed-corr
+		for n := 1; n <= maxN; n++ {
+			var alphabet []int32
+			for s := 0; s < n; s++ {
+				alphabet = append(alphabet, corrOfSlot(s))
+			}
+			alphabet = append(alphabet, corrOfSlot(n-1)+1, 0, -1, 0x7fffffff)
+			assign := make([]int32, n)
+			var rec func(pos int, fn func())
+			rec = func(pos int, fn func()) {
+				if pos == n {
+					fn()
+					return
+				}
+				for _, a := range alphabet {
+					assign[pos] = a
+					rec(pos+1, fn)
+				}
+			}
+			for _, mode := range modes {
+				for _, end := range []string{endIdle, endClose} {
+					rec(0, func() {
+						chunks := make([][]byte, n)
+						for pos := range chunks {
+							chunks[pos] = respFrame(f.Key, f.Ver, assign[pos], markerOf(pos), 0)
+						}
+						yield(mk("keyed-corr", fmt.Sprintf("correlation ids %v, then %s", assign, end), n, f, mode, buildSteps(n, mode, chunks, -1, 0, end)))
+					})
+				}
+			}
+		}
+		// ---- keyed-trunc
+		for n := 1; n <= maxN; n++ {
+			fs := frames(n, f)
+			for _, mode := range modes {
+				for k := 0; k < n; k++ {
+					for o := 0; o < len(fs[k]); o++ {
+						for _, end := range []string{endClose, endSilence, endResume} {
+							yield(mk("keyed-trunc", fmt.Sprintf("frame %d cut after %d of %d bytes, then %s", k, o, len(fs[k]), end), n, f, mode,
+								buildSteps(n, mode, fs, k, o, end)))
+						}
+					}
+				}
+			}
+		}
+		// ---- keyed-size
+		for n := 1; n <= 2; n++ {
+			for _, mode := range modes[:2] {
+				for k := 0; k < n; k++ {
+					fs := frames(n, f)
+					exact := int32(len(fs[k]) - 4)
+					type variant struct {
+						name  string
+						frame []byte
+					}
+					var vs []variant
+					for _, v := range []int32{-1, -2147483648, 0, 1, 3, 4, 5, 6, 7, exact - 1, exact + 1, defaultMaxRead, defaultMaxRead + 1, 1<<31 - 1} {
+						vs = append(vs, variant{fmt.Sprintf("size=%d (exact %d)", v, exact), setSize(fs[k], v)})
+					}
+					for _, v := range []int32{exact + 1, defaultMaxRead, defaultMaxRead + 1} {
+						vs = append(vs, variant{fmt.Sprintf("size=%d with the payload zero-padded to it (exact %d)", v, exact), append(setSize(fs[k], v), make([]byte, int(v-exact))...)})
+					}
+					for _, v := range vs {
+						for _, end := range []string{endIdle, endClose} {
+							chunks := append([][]byte(nil), fs...)
+							chunks[k] = v.frame
+							yield(mk("keyed-size", fmt.Sprintf("frame %d: %s, then %s", k, v.name, end), n, f, mode, buildSteps(n, mode, chunks, -1, 0, end)))
+						}
+					}
+				}
+			}
+		}
+		// ---- keyed-prefix
+		{
+			fs := frames(1, f)
+			for a := -1; a < 256; a++ {
+				var p []byte
+				if a >= 0 {
+					p = []byte{byte(a)}
+				}
+				for _, end := range []string{endClose, endIdle} {
+					yield(mk("keyed-prefix", fmt.Sprintf("garbage prefix %x before the frame, then %s", p, end), 1, f, "stagger",
+						buildSteps(1, "stagger", [][]byte{append(append([]byte(nil), p...), fs[0]...)}, -1, 0, end)))
+				}
+			}
+		}
+		// ---- keyed-tags
+		if flexHeader(f) {
+			tagBufs := [][]byte{{0x01, 0x00, 0x00}, {0x01, 0x05, 0x02, 0xaa, 0xbb}, {0x01, 0x00, 0x7f}, {0x02, 0x00, 0x00}, {0x80}, {0xff, 0xff, 0xff, 0xff, 0xff}, {0x7f}, {0xff, 0x7f}}
+			for n := 1; n <= 2; n++ {
+				for k := 0; k < n; k++ {
+					for ti, tb := range tagBufs {
+						for _, keepBody := range []bool{true, false} {
+							fs := frames(n, f)
+							nf := append([]byte(nil), fs[k][:8]...)
+							nf = append(nf, tb...)
+							if keepBody {
+								nf = append(nf, fs[k][9:]...)
+							}
+							nf = setSize(nf, int32(len(nf)-4))
+							chunks := append([][]byte(nil), fs...)
+							chunks[k] = nf
+							for _, end := range []string{endIdle, endClose} {
+								yield(mk("keyed-tags", fmt.Sprintf("frame %d: header tag buffer #%d %x (body kept=%v), then %s", k, ti, tb, keepBody, end), n, f, "stagger",
+									buildSteps(n, "stagger", chunks, -1, 0, end)))
+							}
 						}
 					}
 				}
